@@ -36,10 +36,11 @@ type langState struct {
 	bools map[types.Object]bool
 	signs map[types.Object]string // float/int variables: "", "ge0", "lt0"
 	out   *DFA
+	done bool // the path has returned
 }
 
 func (s *langState) clone() *langState {
-	n := &langState{strs: map[types.Object]*DFA{}, bools: map[types.Object]bool{}, signs: map[types.Object]string{}, out: s.out}
+	n := &langState{strs: map[types.Object]*DFA{}, bools: map[types.Object]bool{}, signs: map[types.Object]string{}, out: s.out, done: s.done}
 	for k, v := range s.strs {
 		n.strs[k] = v
 	}
@@ -169,6 +170,17 @@ func (li *leafInterp) evalStr(st *langState, e ast.Expr) (*DFA, bool) {
 			li.problem("no language model for %s(%s)", full, strings.Join(args, ", "))
 			return nil, false
 		}
+		if d := li.c.declOf(fn); d != nil && d.Body != nil && li.c.infoFor(d) == li.info {
+			if sig, ok := fn.Type().(*types.Signature); ok && sig.Results().Len() == 1 && isStringType(sig.Results().At(0).Type()) {
+				sign := ""
+				if len(x.Args) > 0 {
+					sign = li.signOf(st, x.Args[0])
+				}
+				if lang := li.summary(d, sign); lang != nil {
+					return lang, true
+				}
+			}
+		}
 		if full == "strings.TrimLeft" && len(x.Args) == 2 {
 			base, ok := li.evalStr(st, x.Args[0])
 			cut, okc := constString(li.info, x.Args[1])
@@ -227,6 +239,10 @@ func (li *leafInterp) execList(states []*langState, list []ast.Stmt, fd *ast.Fun
 	for _, s := range list {
 		var next []*langState
 		for _, st := range states {
+			if st.done {
+				next = append(next, st)
+				continue
+			}
 			next = append(next, li.exec(st, s, fd)...)
 		}
 		states = next
@@ -466,6 +482,14 @@ func (li *leafInterp) exec(st *langState, s ast.Stmt, fd *ast.FuncDecl) []*langS
 		}
 		return out
 	case *ast.ReturnStmt:
+		// a function that hands its text back instead of appending it: the text returned is its output
+		rs := s.(*ast.ReturnStmt)
+		if len(rs.Results) == 1 && isStringType(li.info.TypeOf(rs.Results[0])) {
+			if d, ok := li.evalStr(st, rs.Results[0]); ok {
+				st.out = concatDFA(st.out, d)
+			}
+		}
+		st.done = true
 		return []*langState{st}
 	}
 	li.problem("unsupported statement %T at %s", s, li.c.pos(s.Pos()))
@@ -595,6 +619,20 @@ func bindFormatter(c *Ctx, r *Rec) *fmtRoles {
 			return true
 		})
 	}
+	if fr.intrFD == nil {
+		// the intrinsic dispatcher may be a function of the package instead of a method
+		for _, fd := range c.allFuncDecls("cdcn") {
+			if fd.Body == nil || fd.Recv != nil {
+				continue
+			}
+			ast.Inspect(fd.Body, func(x ast.Node) bool {
+				if ts, ok := x.(*ast.TypeSwitchStmt); ok && len(ts.Body.List) >= 10 && fr.intrFD == nil {
+					fr.intrFD = fd
+				}
+				return true
+			})
+		}
+	}
 	if fr.depthF == nil || fr.maxF == nil || fr.bufF == nil || fr.appendFD == nil || fr.intrFD == nil {
 		r.undecided("bind", "cdcn."+n.Obj().Name(), "", "cannot bind depth/maximum/buffer fields, the append method and the intrinsic type switch of the formatter")
 		return nil
@@ -639,8 +677,15 @@ func leafTokens(c *Ctx, info *types.Info, fr *fmtRoles) map[*ast.FuncDecl]string
 			return true
 		}
 		for _, s := range cc.Body {
+			var callX ast.Expr
 			if es, ok := s.(*ast.ExprStmt); ok {
-				if call, ok := es.X.(*ast.CallExpr); ok {
+				callX = es.X
+			}
+			if rs, ok := s.(*ast.ReturnStmt); ok && len(rs.Results) == 1 {
+				callX = rs.Results[0]
+			}
+			if callX != nil {
+				if call, ok := ast.Unparen(callX).(*ast.CallExpr); ok {
 					if cf := calleeOf(info, call); cf != nil {
 						if d := c.declOf(cf); d != nil {
 							if prev, ok := out[d]; ok && prev != tok {
@@ -815,7 +860,7 @@ func runC10(c *Ctx, r *Rec) {
 		ex, _ := lang.shortest()
 		r.ok("D1-leaf-scannable", construct, c.pos(fd.Pos()), fmt.Sprintf("L(leaf) is included in L(%s) and no earlier token type matches a prefix (shortest output %q)", st.names[tok], ex))
 	}
-	r.floor("D1-leaf-scannable", 1)
+	r.floorSoft("D1-leaf-scannable", "cdcn.formatter/leaves", "no leaf formatter could be bound through the arms of the intrinsic type switch")
 
 	checkReceiverWrites(c, r, "D3-receiver-writes-persist", fr.n)
 	// what the formatter prints for a large queue or stack is read back: the reader does not fill a bounded collection past its capacity
@@ -830,7 +875,7 @@ func runC10(c *Ctx, r *Rec) {
 	for _, name := range sortedKeys(fr.ms) {
 		checkLoops(c, r, "D5-loop-progress", fr.ms[name], nil)
 	}
-	r.floor("D5-loop-progress", 1)
+	r.floorSoft("D5-loop-progress", "loops", "no loop is left in the methods this rule looks at")
 }
 
 // ---------------------------------------------------------------- D2 converter pairs
@@ -878,7 +923,27 @@ func checkConverterPairs(c *Ctx, r *Rec, fr *fmtRoles, st *scanTables) {
 		}
 		return out
 	}
-	prod := collect(fr.ms)
+	// the writer side: the formatter's methods and the package-level functions they call
+	// (leaves may be functions that return their text)
+	writer := map[string]*ast.FuncDecl{}
+	for k, v := range fr.ms {
+		writer[k] = v
+	}
+	for round := 0; round < 2; round++ {
+		for _, fd := range sortedFds(writer) {
+			ast.Inspect(fd.Body, func(x ast.Node) bool {
+				if call, ok := x.(*ast.CallExpr); ok {
+					if cf := calleeOf(info, call); cf != nil && recvNamed(cf) == nil {
+						if d := c.declOf(cf); d != nil && d.Body != nil && c.infoFor(d) == info {
+							writer["func "+d.Name.Name] = d
+						}
+					}
+				}
+				return true
+			})
+		}
+	}
+	prod := collect(writer)
 	cons := collect(c.methodsOf(parser))
 	pairs := []struct {
 		p, pargs, q, qargs, what string
@@ -923,8 +988,17 @@ func checkConverterPairs(c *Ctx, r *Rec, fr *fmtRoles, st *scanTables) {
 	}
 	// the 0x prefix
 	okPrefix := false
-	for _, fd := range fr.ms {
+	nFormatUint := 0
+	for _, fd := range c.allFuncDecls("cdcn") {
+		if fd.Body == nil {
+			continue
+		}
 		ast.Inspect(fd.Body, func(x ast.Node) bool {
+			if call, ok := x.(*ast.CallExpr); ok {
+				if fn := calleeOf(info, call); fn != nil && fn.Name() == "FormatUint" && fn.Pkg() != nil && fn.Pkg().Path() == "strconv" {
+					nFormatUint++
+				}
+			}
 			if be, ok := x.(*ast.BinaryExpr); ok && be.Op == token.ADD {
 				if s, ok := constString(info, be.X); ok && s == "0x" {
 					if call, ok := ast.Unparen(be.Y).(*ast.CallExpr); ok {
@@ -937,7 +1011,11 @@ func checkConverterPairs(c *Ctx, r *Rec, fr *fmtRoles, st *scanTables) {
 			return true
 		})
 	}
-	r.check(okPrefix, "D2-converter-pairs", "cdcn/hexadecimal-prefix", "", `"0x" + FormatUint(...,16) on the writer side, [2:] on the reader side`, `the unsigned leaf does not print "0x" immediately before the base-16 digits`)
+	if nFormatUint == 0 {
+		r.skip("D2-converter-pairs", "cdcn/hexadecimal-prefix", "", "the notation does not call strconv.FormatUint")
+	} else {
+		r.check(okPrefix, "D2-converter-pairs", "cdcn/hexadecimal-prefix", "", `"0x" + FormatUint(...,16) on the writer side, [2:] on the reader side`, `the unsigned leaf does not print "0x" immediately before the base-16 digits`)
+	}
 
 	// collection type names: emitted, scanned, dispatched
 	emitted := map[string]bool{}
@@ -1200,4 +1278,12 @@ func checkKeyValueSameEntry(c *Ctx, r *Rec, rule string, info *types.Info, ms ma
 		}
 		r.check(len(viol) == 0, rule, c.fdName(fd), c.pos(fd.Pos()), fmt.Sprintf("%d key/value pairs: the value is looked up with the very key that is printed", n), strings.Join(dedup(viol), " | "))
 	}
+}
+
+func sortedFds(m map[string]*ast.FuncDecl) []*ast.FuncDecl {
+	var out []*ast.FuncDecl
+	for _, k := range sortedKeys(m) {
+		out = append(out, m[k])
+	}
+	return out
 }
